@@ -229,7 +229,10 @@ PROPS = {
         "technique": "runtime history monitor: append-only seq-ordered event log written by gated / stepping / 8 MB-response / panicking harness handlers and raw-socket clients on real servers; offline oracle for exactly-once entry, exactly-one ending, no progress after cancel, detached completion, delivery to clients that stay, panic isolation",
         "engines": [
             {"name": "c16-disconnect", "bin": "vmon_hist", "package": "hist"},
+            {"name": "c16-h2", "bin": "vmon_hist", "package": "hist"},
+            {"name": "c16-tls", "bin": "vmon_tls", "package": "tlsmon"},
             asan("C16", "c16-disconnect", "hist", "vmon_hist"),
+            asan("C16", "c16-h2", "hist", "vmon_hist"),
         ],
         "assumptions": ASSUME_COMMON,
     },
